@@ -1000,6 +1000,24 @@ func sharedStateIsEnumerated(c *core.Ctx) {
 			if nt := core.NamedOf(elem); nt != nil && nt.Obj().Pkg() != nil && nt.Obj().Pkg().Path() == "sync" && (nt.Obj().Name() == "Map" || nt.Obj().Name() == "Pool") {
 				container = true
 			}
+			// a (pointer to a) struct that holds a map or slice and something to lock it with: a
+			// home-made concurrent container, filled through its methods
+			if stt, ok := derefStruct(elem); ok {
+				hasTable, hasLock := false, false
+				for i := 0; i < stt.NumFields(); i++ {
+					ft := stt.Field(i).Type()
+					switch ft.Underlying().(type) {
+					case *types.Map, *types.Slice:
+						hasTable = true
+					}
+					if nt := core.NamedOf(ft); nt != nil && nt.Obj().Pkg() != nil && nt.Obj().Pkg().Path() == "sync" {
+						hasLock = true
+					}
+				}
+				if hasTable && hasLock {
+					container = true
+				}
+			}
 			if !runtimeWrite && !container {
 				continue
 			}
@@ -1027,32 +1045,46 @@ func iterablesAreAskedForAFreshIterator(c *core.Ctx) {
 	iterableT := core.MustType(op, "Iterable")
 	iteratorT := core.MustType(op, "Iterator")
 	n := 0
-	for _, b := range eval.Blocks {
-		for _, in := range b.Instrs {
-			ta, ok := in.(*ssa.TypeAssert)
-			if !ok || !ta.CommaOk || core.NamedOf(ta.AssertedType) != iteratorT {
-				continue
-			}
-			// a sibling assertion of the same value to Iterable
-			var sib *ssa.TypeAssert
-			for _, b2 := range eval.Blocks {
-				for _, in2 := range b2.Instrs {
-					if ta2, ok := in2.(*ssa.TypeAssert); ok && ta2.CommaOk && core.NamedOf(ta2.AssertedType) == iterableT && ta2.X == ta.X {
-						sib = ta2
+	fns := append([]*ssa.Function{eval}, repoFns(p, "object", "builtins")...)
+	seenFn := map[*ssa.Function]bool{}
+	for _, fn := range fns {
+		if seenFn[fn] {
+			continue
+		}
+		seenFn[fn] = true
+		k := 0
+		for _, b := range fn.Blocks {
+			for _, in := range b.Instrs {
+				ta, ok := in.(*ssa.TypeAssert)
+				if !ok || !ta.CommaOk || core.NamedOf(ta.AssertedType) != iteratorT {
+					continue
+				}
+				// a sibling assertion of the same value to Iterable
+				var sib *ssa.TypeAssert
+				for _, b2 := range fn.Blocks {
+					for _, in2 := range b2.Instrs {
+						if ta2, ok := in2.(*ssa.TypeAssert); ok && ta2.CommaOk && core.NamedOf(ta2.AssertedType) == iterableT && ta2.X == ta.X {
+							sib = ta2
+						}
 					}
 				}
+				if sib == nil {
+					continue
+				}
+				n++
+				k++
+				ok2 := instrDominates(sib, ta)
+				name := core.SSAName(fn)
+				if fn == eval {
+					name = "vm.eval"
+				}
+				c.Check(ok2, name+"|iterable-tested-before-iterator|"+sprintf("%d", k), p.Pos(ta.Pos()),
+					fn.Name()+" tests a value for Iterable and for Iterator"+ife(ok2, ", Iterable first: an object that is both is asked for a fresh iterator", ", Iterator first: an object that is both (a channel) becomes its own iterator, and every consumer of it shares one position (two concurrent list(c) lose and duplicate values)"))
 			}
-			if sib == nil {
-				continue
-			}
-			n++
-			ok2 := instrDominates(sib, ta)
-			c.Check(ok2, "vm.eval|iterable-tested-before-iterator|"+sprintf("%d", n), p.Pos(ta.Pos()),
-				"the dispatch loop tests a value for Iterable and for Iterator"+ife(ok2, ", Iterable first: an object that is both is asked for a fresh iterator", ", Iterator first: an object that is both (a channel) becomes its own iterator, and every loop over it shares one position"))
 		}
 	}
 	if n == 0 {
-		core.Undecidedf("the dispatch loop never tests one value for both Iterable and Iterator")
+		core.Undecidedf("no function tests one value for both Iterable and Iterator")
 	}
 	c.Stat("iter_dispatch_sites", n)
 }
@@ -1927,4 +1959,1317 @@ func memoIsReadWhereItIsWritten(c *core.Ctx) {
 		core.Undecidedf("no function of package compiler both looks up and stores a key in one map field")
 	}
 	c.Stat("memo_read_write_pairs", n)
+}
+
+// ---------------------------------------------------------------------------
+// tableIndexesFitTheirOperand: the compiler refers to the entries of its tables
+// (constants, names, symbols) by 16-bit instruction operands.  Where it turns
+// the length of a table into such an operand (uint16(len(t) - 1)), a
+// comparison of that length with a bound dominates the conversion, as it does
+// for the constants.  Unbounded, the 65537th entry gets index 0 and the
+// instruction silently refers to the first one: after 65536 attribute
+// references in one code object, m.b reads m.a.
+func tableIndexesFitTheirOperand(c *core.Ctx) {
+	p := c.P
+	n := 0
+	for _, fn := range repoFns(p, "compiler") {
+		k := 0
+		for _, b := range fn.Blocks {
+			for _, in := range b.Instrs {
+				cv, ok := in.(*ssa.Convert)
+				if !ok {
+					continue
+				}
+				db, ok := cv.Type().Underlying().(*types.Basic)
+				if !ok || db.Kind() != types.Uint16 {
+					continue
+				}
+				// the operand derives from len(...) of a slice field
+				var lenCall *ssa.Call
+				isLen := func(w ssa.Value) bool {
+					call, ok := w.(*ssa.Call)
+					if !ok {
+						return false
+					}
+					bi, ok := call.Call.Value.(*ssa.Builtin)
+					if ok && bi.Name() == "len" {
+						lenCall = call
+						return true
+					}
+					return false
+				}
+				// the index of the entry that was just appended: uint16(len(t) - 1)
+				sub, isSub := cv.X.(*ssa.BinOp)
+				if !isSub || sub.Op != token.SUB || !isLen(sub.X) {
+					continue
+				}
+				if k1, ok := sub.Y.(*ssa.Const); !ok || k1.Value == nil || k1.Value.ExactString() != "1" {
+					continue
+				}
+				if lenCall == nil {
+					continue
+				}
+				if _, isSlice := lenCall.Call.Args[0].Type().Underlying().(*types.Slice); !isSlice {
+					continue
+				}
+				k++
+				n++
+				// a dominating comparison of a len() of the same slice with something
+				guarded := false
+				for _, b2 := range fn.Blocks {
+					if len(b2.Instrs) == 0 || b2 == b || !b2.Dominates(b) {
+						continue
+					}
+					iff, ok := b2.Instrs[len(b2.Instrs)-1].(*ssa.If)
+					if !ok {
+						continue
+					}
+					bo, ok := iff.Cond.(*ssa.BinOp)
+					if !ok {
+						continue
+					}
+					switch bo.Op {
+					case token.LSS, token.LEQ, token.GTR, token.GEQ:
+						for _, s := range []ssa.Value{bo.X, bo.Y} {
+							if lc, ok := s.(*ssa.Call); ok {
+								if bi, ok := lc.Call.Value.(*ssa.Builtin); ok && bi.Name() == "len" && (lc.Call.Args[0] == lenCall.Call.Args[0] || sameAccessPath(lc.Call.Args[0], lenCall.Call.Args[0], 0)) {
+									guarded = true
+								}
+							}
+						}
+					}
+				}
+				c.Check(guarded, core.SSAName(fn)+"|table-index-fits-16-bits|"+sprintf("%d", k), p.Pos(cv.Pos()),
+					core.SSAName(fn)+" turns the length of a table into a 16-bit operand"+ife(guarded, " after comparing that length with a bound", " without comparing that length with a bound: beyond 65536 entries the index wraps around and the instruction refers to another entry"))
+			}
+		}
+	}
+	if n == 0 {
+		core.Undecidedf("no function of package compiler converts a table length to uint16")
+	}
+	c.Stat("table_index_conversions", n)
+}
+
+// ---------------------------------------------------------------------------
+// namesAreResolvedThroughTheNameIndex: the slots of a code object's globals
+// include the variables of top-level blocks, under their plain names; a name
+// can therefore occur more than once among them.  Code outside the compiler
+// that needs the slot of a name (a module's attributes, VirtualMachine.Get)
+// asks the compiler's name index (GlobalIndex) and does not scan the slots for
+// the name or key a table by the names of all slots: m.x would be the x of an
+// `if` block of the module, and Get("i") the counter of a finished loop.
+func namesAreResolvedThroughTheNameIndex(c *core.Ctx) {
+	p := c.P
+	n := 0
+	for _, fn := range repoFns(p, "object", "vm", ".") {
+		var globalCalls []*ssa.Call
+		asksIndex := false
+		for _, b := range fn.Blocks {
+			for _, in := range b.Instrs {
+				call, ok := in.(*ssa.Call)
+				if !ok {
+					continue
+				}
+				cal := call.Call.StaticCallee()
+				if cal == nil || cal.Signature.Recv() == nil || !core.IsNamed(cal.Signature.Recv().Type(), pkgPath("compiler"), "Code") {
+					continue
+				}
+				switch cal.Name() {
+				case "Global":
+					if inLoop(b) {
+						globalCalls = append(globalCalls, call)
+					}
+				case "GlobalIndex":
+					asksIndex = true
+				}
+			}
+		}
+		for _, gc := range globalCalls {
+			// is the Name() of the symbol used as a map key or compared?
+			keyed := false
+			if refs := gc.Referrers(); refs != nil {
+				for _, r := range *refs {
+					nc, ok := r.(*ssa.Call)
+					if !ok || nc.Call.StaticCallee() == nil || nc.Call.StaticCallee().Name() != "Name" {
+						continue
+					}
+					if nrefs := nc.Referrers(); nrefs != nil {
+						for _, r2 := range *nrefs {
+							switch x := r2.(type) {
+							case *ssa.MapUpdate:
+								if x.Key == ssa.Value(nc) {
+									keyed = true
+								}
+							case *ssa.BinOp:
+								if x.Op == token.EQL || x.Op == token.NEQ {
+									keyed = true
+								}
+							}
+						}
+					}
+				}
+			}
+			if !keyed {
+				continue
+			}
+			n++
+			c.Check(asksIndex, core.SSAName(fn)+"|slot-of-a-name-through-the-name-index", p.Pos(gc.Pos()),
+				core.SSAName(fn)+" walks the global slots of a code object and keys or compares by the name of each slot"+ife(asksIndex, ", consulting the compiler's name index (GlobalIndex) for which slot a name means", " without consulting the compiler's name index: a variable of a top-level block has a slot under the same name, and the last (or first) slot with the name wins instead of the top-level variable"))
+		}
+	}
+	c.Pass("repo|slots-by-name", "", sprintf("%d functions outside the compiler walk the global slots and key or compare by name", n))
+	c.Stat("slot_walks_by_name", n)
+}
+
+// ---------------------------------------------------------------------------
+// lexerDoesNotRecurse: the lexer works through its input with loops.  A
+// function of the lexer that calls itself (directly or through another lexer
+// function) once per construct it skips has a recursion depth that the input
+// chooses: a megabyte of `/**/` in a row exhausted the native stack in Next,
+// which ends the process.
+func lexerDoesNotRecurse(c *core.Ctx) {
+	p := c.P
+	cg := p.CallGraph()
+	lp := p.Pkg("lexer")
+	n := 0
+	var onCycle []string
+	for f := range cg.Nodes {
+		if f == nil || f.Pkg == nil || f.Pkg.Pkg != lp.Types || f.Blocks == nil {
+			continue
+		}
+		n++
+		if onCycleAvoiding(cg, f, map[*ssa.Function]bool{}) {
+			onCycle = append(onCycle, core.SSAName(f))
+		}
+	}
+	sort.Strings(onCycle)
+	if n < 10 {
+		core.Undecidedf("only %d functions of package lexer in the call graph", n)
+	}
+	c.Check(len(onCycle) == 0, "lexer|no-recursion", "", sprintf("%d functions of package lexer examined; on a call cycle: %v", n, onCycle)+ifs(len(onCycle) > 0, " (the depth of that recursion is chosen by the input, and the native stack is finite)"))
+	c.Stat("lexer_functions", n)
+}
+
+// ---------------------------------------------------------------------------
+// scratchBuffersStayInTheVM: the VM has arrays of its own in which it
+// assembles values for a moment (the locals of a call).  A slice of such an
+// array is read element by element inside package vm; it is never handed to
+// code that may keep reading it while the VM goes on (a builtin receives its
+// arguments as a slice and calls back into the VM, which would refill the
+// buffer under it), nor stored anywhere.
+func scratchBuffersStayInTheVM(c *core.Ctx) {
+	p := c.P
+	vmT := vmType(p)
+	st := vmT.Underlying().(*types.Struct)
+	n := 0
+	for _, fn := range repoFns(p, "vm") {
+		for _, b := range fn.Blocks {
+			for _, in := range b.Instrs {
+				sl, ok := in.(*ssa.Slice)
+				if !ok {
+					continue
+				}
+				fa, ok := sl.X.(*ssa.FieldAddr)
+				if !ok || core.NamedOf(fa.X.Type()) != vmT {
+					continue
+				}
+				arr, isArr := st.Field(fa.Field).Type().Underlying().(*types.Array)
+				if !isArr || !core.IsNamed(arr.Elem(), pkgPath("object"), "Object") {
+					continue
+				}
+				n++
+				leak := ""
+				seen := map[ssa.Value]bool{}
+				var follow func(v ssa.Value, depth int)
+				follow = func(v ssa.Value, depth int) {
+					if depth > 3 || seen[v] || v.Referrers() == nil || leak != "" {
+						return
+					}
+					seen[v] = true
+					for _, r := range *v.Referrers() {
+						switch x := r.(type) {
+						case *ssa.Phi:
+							follow(x, depth)
+						case *ssa.Slice:
+							follow(x, depth)
+						case *ssa.Store:
+							if x.Val == v {
+								if _, isLocal := x.Addr.(*ssa.Alloc); !isLocal {
+									leak = "stored at " + p.Pos(x.Pos())
+								}
+							}
+						case *ssa.MakeInterface:
+							leak = "boxed at " + p.Pos(x.Pos())
+						case ssa.CallInstruction:
+							cc := x.Common()
+							if bi, ok := cc.Value.(*ssa.Builtin); ok && (bi.Name() == "len" || bi.Name() == "copy" || bi.Name() == "cap") {
+								continue
+							}
+							cal := cc.StaticCallee()
+							if cal == nil || cal.Pkg == nil || core.RelPkg(cal.Pkg.Pkg) != "vm" || cal.Blocks == nil {
+								leak = "handed to code outside package vm at " + p.Pos(x.Pos())
+								continue
+							}
+							for i, a := range cc.Args {
+								if a == v && i < len(cal.Params) {
+									follow(cal.Params[i], depth+1)
+								}
+							}
+						}
+					}
+				}
+				follow(sl, 0)
+				c.Check(leak == "", core.SSAName(fn)+"|scratch-buffer-stays-in-the-vm|"+st.Field(fa.Field).Name()+sprintf("#%d", n), p.Pos(sl.Pos()),
+					core.SSAName(fn)+" takes a slice of the VM's own array "+st.Field(fa.Field).Name()+ife(leak == "", ", which is only read element by element inside package vm", ", and it is "+leak+": whoever holds it sees the next values the VM assembles there (a builtin whose callback makes a call finds its own arguments overwritten)"))
+			}
+		}
+	}
+	if n == 0 {
+		core.Undecidedf("no slice of an object array of the VM is taken")
+	}
+	c.Stat("scratch_buffer_slices", n)
+}
+
+// ---------------------------------------------------------------------------
+// loadsFollowTheScopeWalk: which variable an identifier means is decided by
+// the symbol table's walk from the innermost scope outward (Resolve).  Every
+// load instruction the compiler emits for a name takes its operand from such a
+// resolution, or from the symbol the compiler has just inserted itself.  A
+// load whose slot comes from a table kept on the side (the host's globals by
+// name) bypasses the scopes in between: a closure reads the builtin `list`
+// instead of the enclosing function's parameter of that name.
+func loadsFollowTheScopeWalk(c *core.Ctx) {
+	p := c.P
+	cp := p.Pkg("compiler")
+	stT := core.MustType(cp, "SymbolTable")
+	loads := map[string]bool{"LoadGlobal": true, "LoadFast": true, "LoadFree": true}
+	n := 0
+	for _, fn := range repoFns(p, "compiler") {
+		k := 0
+		for _, b := range fn.Blocks {
+			for _, in := range b.Instrs {
+				call, ok := in.(*ssa.Call)
+				if !ok {
+					continue
+				}
+				cal := call.Call.StaticCallee()
+				if cal == nil || cal.Name() != "emit" || len(call.Call.Args) < 3 {
+					continue
+				}
+				opk, ok := call.Call.Args[1].(*ssa.Const)
+				if !ok || !loads[opConstName(p, opk)] {
+					continue
+				}
+				// the operands are passed as a variadic slice: find what was stored into it
+				var operand ssa.Value
+				if sl, ok := call.Call.Args[2].(*ssa.Slice); ok {
+					if al, ok := sl.X.(*ssa.Alloc); ok && al.Referrers() != nil {
+						for _, r := range *al.Referrers() {
+							if ia, ok := r.(*ssa.IndexAddr); ok && ia.Referrers() != nil {
+								for _, r2 := range *ia.Referrers() {
+									if st, ok := r2.(*ssa.Store); ok && operand == nil {
+										operand = st.Val
+									}
+								}
+							}
+						}
+					}
+				}
+				if operand == nil {
+					continue
+				}
+				k++
+				n++
+				fromTable := func(w ssa.Value) bool {
+					oc, ok := w.(*ssa.Call)
+					if !ok {
+						return false
+					}
+					c2 := oc.Call.StaticCallee()
+					if c2 == nil || c2.Signature.Recv() == nil || core.NamedOf(c2.Signature.Recv().Type()) != stT {
+						return false
+					}
+					switch {
+					case c2.Name() == "Resolve", strings.HasPrefix(c2.Name(), "Insert"), c2.Name() == "Free", c2.Name() == "Get":
+						// Get on a table reached from the current code (not a side table)
+						return true
+					}
+					return false
+				}
+				ok2 := fromTable(operand) || core.DependsOn(operand, fromTable)
+				// ... and not through a map kept by the Compiler itself
+				side := core.DependsOn(operand, func(w ssa.Value) bool {
+					lk, ok := w.(*ssa.Lookup)
+					if !ok {
+						return false
+					}
+					if u, ok := lk.X.(*ssa.UnOp); ok {
+						if fa, ok := u.X.(*ssa.FieldAddr); ok && core.IsNamed(fa.X.Type(), pkgPath("compiler"), "Compiler") {
+							return true
+						}
+					}
+					return false
+				})
+				c.Check(ok2 && !side, core.SSAName(fn)+"|load-operand-from-the-scope-walk|"+opConstName(p, opk)+sprintf("#%d", k), p.Pos(call.Pos()),
+					core.SSAName(fn)+" emits "+opConstName(p, opk)+ife(ok2 && !side, " with a slot that the symbol table resolved or inserted", " with a slot that does not come from the symbol table's scope walk"+ifs(side, " (it is looked up in a table the Compiler keeps on the side)")+": the scopes between the use and that variable are not consulted, so a variable of an enclosing function with the same name is bypassed"))
+			}
+		}
+	}
+	if n < 3 {
+		core.Undecidedf("only %d load instructions emitted with a computed slot", n)
+	}
+	c.Stat("emitted_loads", n)
+}
+
+// ---------------------------------------------------------------------------
+// assertionsOnTheUnprotectedSurfaceAreChecked: parser.Parse and
+// compiler.Compile run in the caller of Eval, with no recover between them and
+// the host.  A single-valued type assertion there is a panic in the host when
+// the dynamic type is another one.  Each such assertion on a syntax-tree value
+// is justified by where the value comes from: the node's type is fixed by the
+// constructor or the dispatch that led here (listed below, by function and
+// asserted type, with the reason), or the assertion is written in the
+// two-valued form.
+var uncheckedAssertionsJustified = map[string]string{
+	"(*parser.Parser).parseGetAttr|*ast.Ident": "the call is made right after curTokenIs(token.IDENT) succeeded; parseIdent returns nil only for an identifier token with an empty literal, which the lexer's readIdentifier never produces (it is entered on a first identifier character)",
+}
+
+func assertionsOnTheUnprotectedSurfaceAreChecked(c *core.Ctx) {
+	p := c.P
+	n, single := 0, 0
+	for _, fn := range repoFns(p, "parser", "compiler") {
+		k := map[string]int{}
+		for _, b := range fn.Blocks {
+			for _, in := range b.Instrs {
+				ta, ok := in.(*ssa.TypeAssert)
+				if !ok {
+					continue
+				}
+				n++
+				if ta.CommaOk {
+					continue
+				}
+				// a type switch clause or a preceding successful two-valued assertion of the same value to the same type
+				proven := false
+				for _, b2 := range fn.Blocks {
+					for _, in2 := range b2.Instrs {
+						ta2, ok := in2.(*ssa.TypeAssert)
+						if !ok || !ta2.CommaOk || ta2 == ta || !types.Identical(ta2.AssertedType, ta.AssertedType) {
+							continue
+						}
+						if ta2.X != ta.X && !core.SameStorage(ta2.X, ta.X) && !sameAccessPath(ta2.X, ta.X, 0) {
+							continue
+						}
+						if ta2.Referrers() == nil {
+							continue
+						}
+						for _, r := range *ta2.Referrers() {
+							if ex, ok := r.(*ssa.Extract); ok && ex.Index == 1 && ex.Referrers() != nil {
+								for _, r2 := range *ex.Referrers() {
+									if iff, ok := r2.(*ssa.If); ok {
+										t := iff.Block().Succs[0]
+										if t == b || t.Dominates(b) {
+											proven = true
+										}
+									}
+								}
+							}
+						}
+					}
+				}
+				if proven {
+					continue
+				}
+				single++
+				key := core.SSAName(fn) + "|" + types.TypeString(ta.AssertedType, func(pk *types.Package) string { return pk.Name() })
+				k[key]++
+				full := key
+				if k[key] > 1 {
+					full = key + sprintf("#%d", k[key])
+				}
+				why, ok := uncheckedAssertionsJustified[key]
+				c.Check(ok, full+"|assertion-justified", p.Pos(ta.Pos()),
+					core.SSAName(fn)+" asserts a value to "+ta.AssertedType.String()+" in the single-valued form"+ife(ok, ": "+why, " and the assertion is not in the table of justified ones: if the value can have another dynamic type (a default value that is a minus sign applied to something that is not a number), Compile or Parse panics in the caller of Eval"))
+			}
+		}
+	}
+	c.Stat("type_assertions_front_end", n)
+	c.Stat("single_valued_unproven", single)
+}
+
+// ---------------------------------------------------------------------------
+// reflectedMapWalksAreOrderIndependent: reflect.Value.MapRange walks a Go map
+// in Go's random order, like a range statement does, without being one.  A
+// loop driven by (*reflect.MapIter).Next neither leaves the function from its
+// body (the first failing entry in that order would decide the error that is
+// reported) nor appends to a slice there.
+func reflectedMapWalksAreOrderIndependent(c *core.Ctx) {
+	p := c.P
+	n := 0
+	for _, pk := range p.Pkgs {
+		info := pk.TypesInfo
+		funcBodies(pk, func(fn *types.Func, fd *ast.FuncDecl) {
+			k := 0
+			ast.Inspect(fd.Body, func(nd ast.Node) bool {
+				fs, ok := nd.(*ast.ForStmt)
+				if !ok || fs.Cond == nil {
+					return true
+				}
+				call, ok := ast.Unparen(fs.Cond).(*ast.CallExpr)
+				if !ok {
+					return true
+				}
+				cal := calleeOf(info, call)
+				if cal == nil || cal.Name() != "Next" || cal.Pkg() == nil || cal.Pkg().Path() != "reflect" {
+					return true
+				}
+				k++
+				n++
+				bad := ""
+				ast.Inspect(fs.Body, func(n2 ast.Node) bool {
+					switch x := n2.(type) {
+					case *ast.ReturnStmt:
+						bad = "leaves the function at " + p.Pos(x.Pos())
+					case *ast.CallExpr:
+						if id, ok := ast.Unparen(x.Fun).(*ast.Ident); ok && id.Name == "append" {
+							if _, isBuiltin := info.Uses[id].(*types.Builtin); isBuiltin {
+								bad = "appends to a slice at " + p.Pos(x.Pos())
+							}
+						}
+					case *ast.FuncLit:
+						return false
+					}
+					return true
+				})
+				c.Check(bad == "", qual(pk, fd)+"|reflect-map-walk-order-independent|"+sprintf("%d", k), p.Pos(fs.Pos()),
+					fd.Name.Name+" walks a Go map with reflect.Value.MapRange"+ife(bad == "", " and does nothing in the loop that depends on the order", ", in Go's random order, and "+bad+": which entry that is differs from run to run (the first unconvertible value decides the error)"))
+				return true
+			})
+		})
+	}
+	if n == 0 {
+		c.Pass("repo|no-reflect-map-walks", "", "no loop is driven by (*reflect.MapIter).Next")
+	}
+	c.Stat("reflect_map_walks", n)
+}
+
+// ---------------------------------------------------------------------------
+// hostEntryPointsDoNotPush: Run, RunCode and Call start from an empty operand
+// stack and what the evaluation leaves there is its result.  The exported
+// methods of the VM do not push anything themselves: a value pushed after the
+// evaluation (so that TOS shows it) stays there across calls, one more slot
+// per Call, until the stack is full.
+func hostEntryPointsDoNotPush(c *core.Ctx) {
+	p := c.P
+	t := VMTable(p)
+	push := p.SSAFunc(t.Prims["push"])
+	vmT := vmType(p)
+	n := 0
+	for _, m := range core.Methods(vmT) {
+		if !m.Exported() {
+			continue
+		}
+		sf := p.SSAFunc(m)
+		if sf == nil || sf.Blocks == nil {
+			continue
+		}
+		n++
+		bad := ""
+		for _, b := range sf.Blocks {
+			for _, in := range b.Instrs {
+				if ci, ok := in.(ssa.CallInstruction); ok && ci.Common().StaticCallee() == push {
+					bad = p.Pos(in.Pos())
+				}
+			}
+		}
+		c.Check(bad == "", "vm.VirtualMachine."+m.Name()+"|pushes-nothing-itself", p.Pos(sf.Pos()),
+			"the exported method "+m.Name()+" pushes nothing onto the operand stack itself"+ifs(bad != "", ": it does at "+bad+", and nothing pops that value again, so every invocation leaves the stack one slot deeper"))
+	}
+	if n < 5 {
+		core.Undecidedf("only %d exported methods of VirtualMachine found", n)
+	}
+	c.Stat("exported_vm_methods", n)
+}
+
+// ---------------------------------------------------------------------------
+// importStatementsAlwaysImport: the function that compiles an import statement
+// emits the import instruction on every path that ends without an error.  A
+// path that returns early because the name is bound already drops the
+// statement: `import a as m; import other as m` (or `import "pkg/a"` followed
+// by `import a`) leaves the first module under the name and never runs the
+// second.
+func importStatementsAlwaysImport(c *core.Ctx) {
+	p := c.P
+	n := 0
+	for _, fn := range repoFns(p, "compiler") {
+		if fn.Parent() != nil {
+			continue
+		}
+		emitBlocks := map[*ssa.BasicBlock]bool{}
+		which := ""
+		for _, b := range fn.Blocks {
+			for _, in := range b.Instrs {
+				call, ok := in.(*ssa.Call)
+				if !ok {
+					continue
+				}
+				cal := call.Call.StaticCallee()
+				if cal == nil || cal.Name() != "emit" || len(call.Call.Args) < 2 {
+					continue
+				}
+				if k, ok := call.Call.Args[1].(*ssa.Const); ok {
+					if name := opConstName(p, k); name == "Import" || name == "FromImport" {
+						emitBlocks[b] = true
+						which = name
+					}
+				}
+			}
+		}
+		if len(emitBlocks) == 0 {
+			continue
+		}
+		n++
+		// a success return reachable from the entry without passing an emitting block
+		bad := ""
+		seen := map[*ssa.BasicBlock]bool{}
+		var walk func(b *ssa.BasicBlock)
+		walk = func(b *ssa.BasicBlock) {
+			if seen[b] || emitBlocks[b] {
+				return
+			}
+			seen[b] = true
+			if len(b.Instrs) > 0 {
+				if r, ok := b.Instrs[len(b.Instrs)-1].(*ssa.Return); ok && len(r.Results) > 0 {
+					allNil := true
+					for _, o := range core.Origins(spilledResult(b, r.Results[len(r.Results)-1])) {
+						if k, isK := o.(*ssa.Const); !isK || !k.IsNil() {
+							allNil = false
+						}
+					}
+					if allNil {
+						bad = p.Pos(r.Pos())
+					}
+				}
+			}
+			for _, s := range b.Succs {
+				walk(s)
+			}
+		}
+		walk(fn.Blocks[0])
+		c.Check(bad == "", core.SSAName(fn)+"|every-success-path-emits-"+which, p.Pos(fn.Pos()),
+			core.SSAName(fn)+" emits op."+which+ife(bad == "", " on every path that ends without an error", ", but the return at "+bad+" is reached without it: on that path the import statement compiles to nothing, the module's code never runs and the name keeps what it held"))
+	}
+	if n < 2 {
+		core.Undecidedf("only %d functions of package compiler emit an import instruction", n)
+	}
+	c.Stat("import_compilers", n)
+}
+
+// ---------------------------------------------------------------------------
+// pairWalksRememberPairs: the walks over two values in step (Equals, Compare)
+// ask the visit record about the pair of containers they are at, not about one
+// of them.  Remembering the left one alone, a left operand that contains
+// itself is "already being compared" whatever stands on the right: a == b
+// holds for a cyclic a and an acyclic b of the same shape while b == a does
+// not.
+func pairWalksRememberPairs(c *core.Ctx) {
+	p := c.P
+	op := p.Pkg("object")
+	vt := op.Types.Scope().Lookup("visit")
+	if vt == nil {
+		core.Undecidedf("object.visit not found")
+	}
+	visitT, _ := vt.Type().(*types.Named)
+	n := 0
+	for _, fn := range repoFns(p, "object") {
+		if fn.Parent() != nil || fn.Signature.Recv() == nil {
+			continue
+		}
+		var other, v *ssa.Parameter
+		for _, prm := range fn.Params[1:] {
+			if core.IsNamed(prm.Type(), pkgPath("object"), "Object") {
+				other = prm
+			}
+			if pt, ok := prm.Type().(*types.Pointer); ok && core.NamedOf(pt) == visitT {
+				v = prm
+			}
+		}
+		if other == nil || v == nil {
+			continue
+		}
+		// calls of methods of the visit record whose result decides an early return
+		for _, b := range fn.Blocks {
+			for _, in := range b.Instrs {
+				call, ok := in.(*ssa.Call)
+				if !ok {
+					continue
+				}
+				cal := call.Call.StaticCallee()
+				if cal == nil || cal.Signature.Recv() == nil || core.NamedOf(cal.Signature.Recv().Type()) != visitT {
+					continue
+				}
+				if rb, ok := cal.Signature.Results().At(0).Type().Underlying().(*types.Basic); cal.Signature.Results().Len() != 1 || !ok || rb.Kind() != types.Bool {
+					continue
+				}
+				n++
+				both := false
+				for _, a := range call.Call.Args[1:] {
+					if a == ssa.Value(other) || core.DependsOn(a, func(w ssa.Value) bool { return w == ssa.Value(other) }) {
+						both = true
+					}
+				}
+				c.Check(both, core.SSAName(fn)+"|pair-remembered", p.Pos(call.Pos()),
+					core.SSAName(fn)+" walks two values in step and asks the visit record ("+cal.Name()+") "+ife(both, "about the pair", "about its own container only, not about the other operand: a container that contains itself then counts as already visited whatever it is being compared with, and == stops being symmetric"))
+			}
+		}
+	}
+	if n < 2 {
+		core.Undecidedf("only %d two-value walks ask the visit record", n)
+	}
+	c.Stat("pair_walk_guards", n)
+}
+
+// ---------------------------------------------------------------------------
+// literalsBuildTheirOwnKind: the instruction that builds a container from the
+// items on the stack is emitted for a literal of that kind: BuildList for an
+// ast.List, BuildSet for an ast.Set, BuildMap for an ast.Map.  Building another
+// kind from a literal (a set for the list on the right of `in`) changes what
+// the operations on it mean: set membership goes by hash key, list membership
+// by ==, so 2.0 in [1, 2, 3] stops being true.
+func literalsBuildTheirOwnKind(c *core.Ctx) {
+	p := c.P
+	want := map[string]string{"BuildList": "List", "BuildSet": "Set", "BuildMap": "Map"}
+	n := 0
+	for _, fn := range repoFns(p, "compiler") {
+		for _, b := range fn.Blocks {
+			for _, in := range b.Instrs {
+				call, ok := in.(*ssa.Call)
+				if !ok {
+					continue
+				}
+				cal := call.Call.StaticCallee()
+				if cal == nil || cal.Name() != "emit" || len(call.Call.Args) < 3 {
+					continue
+				}
+				k, ok := call.Call.Args[1].(*ssa.Const)
+				if !ok {
+					continue
+				}
+				opn := opConstName(p, k)
+				node, ok := want[opn]
+				if !ok {
+					continue
+				}
+				n++
+				// the syntax-tree types whose accessors feed this function's operand: the parameters of ast pointer type
+				// and every value asserted to one
+				kinds := map[string]bool{}
+				for _, b2 := range fn.Blocks {
+					for _, in2 := range b2.Instrs {
+						if c2, ok := in2.(*ssa.Call); ok {
+							if cc := c2.Call.StaticCallee(); cc != nil && cc.Signature.Recv() != nil {
+								if nt := core.NamedOf(cc.Signature.Recv().Type()); nt != nil && nt.Obj().Pkg() != nil && core.RelPkg(nt.Obj().Pkg()) == "ast" && (cc.Name() == "Items" || cc.Name() == "Keys") {
+									if instrReaches(in2, in) {
+										kinds[nt.Obj().Name()] = true
+									}
+								}
+							}
+						}
+					}
+				}
+				var got []string
+				for kd := range kinds {
+					got = append(got, kd)
+				}
+				sort.Strings(got)
+				ok2 := len(kinds) == 0 || (len(kinds) == 1 && kinds[node])
+				c.Check(ok2, core.SSAName(fn)+"|"+opn+"-for-its-own-literal", p.Pos(call.Pos()),
+					core.SSAName(fn)+" emits op."+opn+ife(ok2, " for the items of an ast."+node, sprintf(" for the items of %v: a literal of one kind is built as a container of another, whose membership, equality and order are defined differently", got)))
+			}
+		}
+	}
+	if n < 3 {
+		core.Undecidedf("only %d container-building instructions are emitted", n)
+	}
+	c.Stat("container_builds", n)
+}
+
+func derefStruct(t types.Type) (*types.Struct, bool) {
+	if pt, ok := t.Underlying().(*types.Pointer); ok {
+		t = pt.Elem()
+	}
+	st, ok := t.Underlying().(*types.Struct)
+	return st, ok
+}
+
+// ---------------------------------------------------------------------------
+// storedNumbersAreTakenAtFaceValue: the loader of marshalled code takes a
+// number it finds in the stored form for what it is.  A test of a stored
+// numeric field against zero that makes the loader compute the value some
+// other way treats "zero" as "absent", which it cannot tell apart once the
+// field is written with omitempty: a function whose every parameter has a
+// default has zero required arguments, and loaded back it had one.
+func storedNumbersAreTakenAtFaceValue(c *core.Ctx) {
+	p := c.P
+	n, fields := 0, 0
+	for _, fn := range repoFns(p, "compiler") {
+		if !strings.HasSuffix(p.Fset.Position(fn.Pos()).Filename, "store.go") {
+			continue
+		}
+		for _, b := range fn.Blocks {
+			for _, in := range b.Instrs {
+				// loads of numeric fields of the stored-form structs (types named ...Def / state)
+				if u, ok := in.(*ssa.UnOp); ok {
+					if fa, ok := u.X.(*ssa.FieldAddr); ok {
+						if nt := core.NamedOf(fa.X.Type()); nt != nil && (strings.HasSuffix(nt.Obj().Name(), "Def") || nt.Obj().Name() == "state") {
+							if bt, ok := u.Type().Underlying().(*types.Basic); ok && bt.Info()&types.IsNumeric != 0 {
+								fields++
+							}
+						}
+					}
+				}
+				bo, ok := in.(*ssa.BinOp)
+				if !ok || (bo.Op != token.EQL && bo.Op != token.NEQ) {
+					continue
+				}
+				for _, pair := range [][2]ssa.Value{{bo.X, bo.Y}, {bo.Y, bo.X}} {
+					k, ok := pair[1].(*ssa.Const)
+					if !ok || k.Value == nil || k.Value.ExactString() != "0" {
+						continue
+					}
+					u, ok := pair[0].(*ssa.UnOp)
+					if !ok {
+						continue
+					}
+					fa, ok := u.X.(*ssa.FieldAddr)
+					if !ok {
+						continue
+					}
+					nt := core.NamedOf(fa.X.Type())
+					if nt == nil || !(strings.HasSuffix(nt.Obj().Name(), "Def") || nt.Obj().Name() == "state") {
+						continue
+					}
+					n++
+					c.Check(false, core.SSAName(fn)+"|stored-number-at-face-value|"+fieldNameOf(nt, fa.Field), p.Pos(bo.Pos()),
+						core.SSAName(fn)+" tests the stored field "+nt.Obj().Name()+"."+fieldNameOf(nt, fa.Field)+" against zero: a zero that was stored is then handled as if nothing had been stored, and the loaded code differs from the code that was marshalled")
+				}
+			}
+		}
+	}
+	c.Pass("compiler/store|numeric-fields", "", sprintf("%d loads of numeric fields of the stored form, %d of them compared with zero", fields, n))
+	c.Stat("stored_numeric_field_loads", fields)
+}
+
+// ---------------------------------------------------------------------------
+// tablesAreFoundTheWayTheyAreNumbered: the loader finds the symbol table of a
+// code object by the id the compiler gave it, with the search the symbol table
+// itself provides over all of its descendants (FindTable).  An index of its
+// own built by another walk must visit exactly the same tables; one that looks
+// through blocks only one level deep cannot find the table of a function
+// declared in an if inside a loop.
+func tablesAreFoundTheWayTheyAreNumbered(c *core.Ctx) {
+	p := c.P
+	cp := p.Pkg("compiler")
+	stT := core.MustType(cp, "SymbolTable")
+	n := 0
+	for _, fn := range repoFns(p, "compiler") {
+		if !strings.HasSuffix(p.Fset.Position(fn.Pos()).Filename, "store.go") {
+			continue
+		}
+		// uses of a symbol table id to get a table
+		for _, b := range fn.Blocks {
+			for _, in := range b.Instrs {
+				switch x := in.(type) {
+				case *ssa.Call:
+					if cal := x.Call.StaticCallee(); cal != nil && cal.Name() == "FindTable" {
+						n++
+						c.Pass(core.SSAName(fn)+"|table-found-by-the-tables-own-search", p.Pos(x.Pos()), "the table of a code object is found with SymbolTable.FindTable")
+					}
+				case *ssa.Lookup:
+					// a map from id to *SymbolTable built in this file
+					if mt, ok := x.X.Type().Underlying().(*types.Map); ok {
+						if pt, ok := mt.Elem().(*types.Pointer); ok && core.NamedOf(pt) == stT {
+							n++
+							// an index of its own is as good as FindTable if the walk that fills it visits every
+							// child of every table unconditionally
+							complete, filler := indexWalkIsComplete(p, stT)
+							c.Check(complete, core.SSAName(fn)+"|table-found-by-the-tables-own-search", p.Pos(x.Pos()),
+								core.SSAName(fn)+" finds the symbol table of a code object in an index of its own"+ife(complete, ", filled by a walk ("+filler+") that visits every child of every table", ", and the walk that fills it ("+filler+") does not descend into every child of every table unconditionally: a table it skips (a function declared two blocks deep) is not found, and code that was marshalled cannot be loaded"))
+						}
+					}
+				}
+			}
+		}
+	}
+	if n == 0 {
+		core.Undecidedf("the loader never looks a symbol table up by id")
+	}
+	c.Stat("table_lookups_in_loader", n)
+}
+
+// indexWalkIsComplete: the function of package compiler that stores symbol
+// tables into a map keyed by string recurses into every element of every range
+// over a children field without a condition in between.
+func indexWalkIsComplete(p *core.Program, stT *types.Named) (bool, string) {
+	ci := fieldIdxByName(stT, "children")
+	for _, fn := range repoFns(p, "compiler") {
+		fills := false
+		for _, b := range fn.Blocks {
+			for _, in := range b.Instrs {
+				if mu, ok := in.(*ssa.MapUpdate); ok {
+					if mt, ok := mu.Map.Type().Underlying().(*types.Map); ok {
+						if pt, ok := mt.Elem().(*types.Pointer); ok && core.NamedOf(pt) == stT {
+							fills = true
+						}
+					}
+				}
+			}
+		}
+		if !fills {
+			continue
+		}
+		ok := true
+		ranges := 0
+		for _, b := range fn.Blocks {
+			for _, in := range b.Instrs {
+				rg, isR := in.(*ssa.Range)
+				_ = rg
+				if isR {
+					continue
+				}
+				// slices are ranged by index loops in SSA: find loads of children used in a loop
+				if u, isU := in.(*ssa.UnOp); isU {
+					if fa, isF := u.X.(*ssa.FieldAddr); isF && fa.Field == ci && core.NamedOf(fa.X.Type()) == stT {
+						ranges++
+					}
+				}
+			}
+		}
+		// every recursive call sits in a block that is reached from the loop body without passing an If on a field of the child
+		for _, b := range fn.Blocks {
+			for _, in := range b.Instrs {
+				call, isC := in.(*ssa.Call)
+				if !isC || call.Call.StaticCallee() != fn {
+					continue
+				}
+				// walk up single-predecessor chain: an If whose condition reads a field of a SymbolTable makes the call conditional
+				for _, b2 := range fn.Blocks {
+					if len(b2.Instrs) == 0 || b2 == b || !b2.Dominates(b) {
+						continue
+					}
+					iff, isIf := b2.Instrs[len(b2.Instrs)-1].(*ssa.If)
+					if !isIf {
+						continue
+					}
+					if core.DependsOn(iff.Cond, func(w ssa.Value) bool {
+						fa, ok := w.(*ssa.FieldAddr)
+						return ok && core.NamedOf(fa.X.Type()) == stT && fa.Field != ci
+					}) {
+						ok = false
+					}
+				}
+			}
+		}
+		if ranges == 0 {
+			ok = false
+		}
+		return ok, fn.Name()
+	}
+	return false, "no filling function found"
+}
+
+// ---------------------------------------------------------------------------
+// theSnapshotComesFirst: Compile takes the snapshot it rolls back to before
+// anything that can declare a name.  Whatever runs before the snapshot is not
+// undone when the input is rejected: with the pass that declares the input's
+// top-level functions moved in front of it, the names of a rejected piece stay
+// declared, and entering the corrected function is refused as a redefinition.
+func theSnapshotComesFirst(c *core.Ctx) {
+	p := c.P
+	cg := p.CallGraph()
+	cp := p.Pkg("compiler")
+	compT := core.MustType(cp, "Compiler")
+	stT := core.MustType(cp, "SymbolTable")
+	var compile *ssa.Function
+	for _, fn := range repoFns(p, "compiler") {
+		if fn.Name() == "Compile" && fn.Signature.Recv() != nil && core.NamedOf(fn.Signature.Recv().Type()) == compT {
+			compile = fn
+		}
+	}
+	if compile == nil {
+		core.Undecidedf("Compiler.Compile not found")
+	}
+	// functions that insert into a symbol table
+	var inserts []*ssa.Function
+	for _, fn := range repoFns(p, "compiler") {
+		if fn.Signature.Recv() != nil && core.NamedOf(fn.Signature.Recv().Type()) == stT && strings.HasPrefix(fn.Name(), "Insert") {
+			inserts = append(inserts, fn)
+		}
+	}
+	declares := func(f *ssa.Function) bool {
+		for _, ins := range inserts {
+			if f == ins || reachesFunc(cg, f, ins, 6) {
+				return true
+			}
+		}
+		return false
+	}
+	var snap ssa.Instruction
+	for _, b := range compile.Blocks {
+		for _, in := range b.Instrs {
+			if call, ok := in.(*ssa.Call); ok {
+				if cal := call.Call.StaticCallee(); cal != nil && cal.Name() == "state" && snap == nil {
+					snap = in
+				}
+			}
+		}
+	}
+	if snap == nil {
+		core.Undecidedf("Compile takes no snapshot (no call of a state method)")
+	}
+	n := 0
+	for _, b := range compile.Blocks {
+		for _, in := range b.Instrs {
+			call, ok := in.(*ssa.Call)
+			if !ok || in == snap {
+				continue
+			}
+			cal := call.Call.StaticCallee()
+			if cal == nil || !core.RepoFunc(cal) || !declares(cal) {
+				continue
+			}
+			n++
+			after := instrDominates(snap, in)
+			c.Check(after, "compiler.Compiler.Compile|declares-after-the-snapshot|"+cal.Name(), p.Pos(call.Pos()),
+				"Compile calls "+cal.Name()+", which can declare names, "+ife(after, "after it has taken the snapshot that a rejected input is rolled back to", "before it takes the snapshot that a rejected input is rolled back to: what "+cal.Name()+" declared stays declared when the input is rejected"))
+		}
+	}
+	if n < 2 {
+		core.Undecidedf("only %d calls in Compile can declare names", n)
+	}
+	c.Stat("declaring_calls_in_compile", n)
+}
+
+// ---------------------------------------------------------------------------
+// importersRememberOnlySuccesses: an importer may keep what it has compiled.
+// It records nothing on a path that ends with an error: "this module does not
+// exist" is true of the moment it was asked, and a REPL session or a long-lived
+// host can create the file afterwards.
+func importersRememberOnlySuccesses(c *core.Ctx) {
+	p := c.P
+	n := 0
+	for _, fn := range repoFns(p, "importer") {
+		if fn.Name() != "Import" || fn.Signature.Recv() == nil || fn.Parent() != nil {
+			continue
+		}
+		n++
+		bad := ""
+		for _, b := range fn.Blocks {
+			for _, in := range b.Instrs {
+				mu, ok := in.(*ssa.MapUpdate)
+				if !ok {
+					continue
+				}
+				// an error return reachable after the store
+				seen := map[*ssa.BasicBlock]bool{}
+				var walk func(bb *ssa.BasicBlock, from int)
+				walk = func(bb *ssa.BasicBlock, from int) {
+					for _, x := range bb.Instrs[from:] {
+						if r, ok := x.(*ssa.Return); ok && len(r.Results) > 0 {
+							for _, o := range core.Origins(spilledResult(bb, r.Results[len(r.Results)-1])) {
+								if k, isK := o.(*ssa.Const); !isK || !k.IsNil() {
+									bad = p.Pos(mu.Pos())
+								}
+							}
+						}
+					}
+					for _, s := range bb.Succs {
+						if !seen[s] {
+							seen[s] = true
+							walk(s, 0)
+						}
+					}
+				}
+				for i, x := range b.Instrs {
+					if x == in {
+						walk(b, i+1)
+					}
+				}
+			}
+		}
+		c.Check(bad == "", core.SSAName(fn)+"|remembers-only-successes", p.Pos(fn.Pos()),
+			core.SSAName(fn)+ife(bad == "", " stores into its tables only on paths that end without an error", " stores into one of its tables at "+bad+" on a path that ends with an error: a failure is remembered, and the module stays unavailable after whatever was wrong has been put right"))
+	}
+	if n < 2 {
+		core.Undecidedf("only %d Import methods in package importer", n)
+	}
+	c.Stat("importers", n)
+}
+
+// ---------------------------------------------------------------------------
+// encodingsAreChosenByOptionsNotByData: which Go encoding a decode function
+// uses (padded or raw) follows from the options the script gave.  A choice
+// that also looks at the data (its length) applies another decoder than Go's
+// to some inputs: padded text that contains line breaks is rejected, and
+// malformed unpadded text is accepted.
+func encodingsAreChosenByOptionsNotByData(c *core.Ctx) {
+	p := c.P
+	n := 0
+	for _, fn := range repoFns(p) {
+		rel := core.RelPkg(fn.Pkg.Pkg)
+		if rel != "builtins" && !strings.HasPrefix(rel, "modules/") {
+			continue
+		}
+		// loads of two different encoding variables of encoding/base64 or base32
+		encs := map[*ssa.Global][]*ssa.BasicBlock{}
+		for _, b := range fn.Blocks {
+			for _, in := range b.Instrs {
+				if u, ok := in.(*ssa.UnOp); ok {
+					if g, ok := u.X.(*ssa.Global); ok && g.Pkg != nil && (g.Pkg.Pkg.Path() == "encoding/base64" || g.Pkg.Pkg.Path() == "encoding/base32") {
+						encs[g] = append(encs[g], b)
+					}
+				}
+			}
+		}
+		if len(encs) < 2 {
+			continue
+		}
+		n++
+		bad := ""
+		for _, b := range fn.Blocks {
+			if len(b.Instrs) == 0 {
+				continue
+			}
+			iff, ok := b.Instrs[len(b.Instrs)-1].(*ssa.If)
+			if !ok {
+				continue
+			}
+			// does this If separate the encodings? (one successor dominates a load of one encoding only)
+			separates := false
+			for _, blocks := range encs {
+				for _, eb := range blocks {
+					for _, s := range b.Succs {
+						if s == eb || s.Dominates(eb) {
+							separates = true
+						}
+					}
+				}
+			}
+			if !separates {
+				continue
+			}
+			if core.DependsOn(iff.Cond, func(w ssa.Value) bool {
+				call, ok := w.(*ssa.Call)
+				if !ok {
+					return false
+				}
+				bi, ok := call.Call.Value.(*ssa.Builtin)
+				if !ok || bi.Name() != "len" {
+					return false
+				}
+				t := call.Call.Args[0].Type().Underlying()
+				if sl, ok := t.(*types.Slice); ok {
+					if eb, ok := sl.Elem().Underlying().(*types.Basic); ok && eb.Kind() == types.Uint8 {
+						return true
+					}
+				}
+				if bt, ok := t.(*types.Basic); ok && bt.Info()&types.IsString != 0 {
+					return true
+				}
+				return false
+			}) {
+				bad = p.Pos(iff.Pos())
+			}
+		}
+		c.Check(bad == "", core.SSAName(fn)+"|encoding-chosen-by-options", p.Pos(fn.Pos()),
+			core.SSAName(fn)+" chooses between Go's encodings"+ife(bad == "", " without looking at the data", " under a condition (at "+bad+") that depends on the length of the data: for some inputs another decoder than the one the options name is applied, and the result differs from Go's"))
+	}
+	if n == 0 {
+		core.Undecidedf("no module function chooses between two encodings")
+	}
+	c.Stat("encoding_choices", n)
+}
+
+// ---------------------------------------------------------------------------
+// paddedEncodingsSeeTheWholeInput: EncodeToString of a padded text encoding
+// (base64, base32) is applied to the complete data.  Applied to one piece at a
+// time (in a loop, or through a function value that something else calls per
+// chunk) every piece whose length is not a multiple of the encoding's block is
+// padded on its own, and the concatenation is not the encoding of the input.
+func paddedEncodingsSeeTheWholeInput(c *core.Ctx) {
+	p := c.P
+	n := 0
+	for _, fn := range repoFns(p) {
+		rel := core.RelPkg(fn.Pkg.Pkg)
+		if rel != "builtins" && !strings.HasPrefix(rel, "modules/") && rel != "object" {
+			continue
+		}
+		k := 0
+		for _, b := range fn.Blocks {
+			for _, in := range b.Instrs {
+				isEnc := func(f *ssa.Function) bool {
+					if f == nil {
+						return false
+					}
+					name := strings.TrimSuffix(f.Name(), "$bound")
+					if name != "EncodeToString" && name != "Encode" {
+						return false
+					}
+					pk := f.Pkg
+					if pk == nil && f.Synthetic != "" && f.Signature != nil {
+						// bound method wrappers have no package: look at the receiver they capture
+						for _, fv := range f.FreeVars {
+							if nt := core.NamedOf(fv.Type()); nt != nil && nt.Obj().Pkg() != nil && (nt.Obj().Pkg().Path() == "encoding/base64" || nt.Obj().Pkg().Path() == "encoding/base32") {
+								return true
+							}
+						}
+						return false
+					}
+					return pk != nil && (pk.Pkg.Path() == "encoding/base64" || pk.Pkg.Path() == "encoding/base32")
+				}
+				switch x := in.(type) {
+				case *ssa.Call:
+					if isEnc(x.Call.StaticCallee()) {
+						k++
+						n++
+						c.Check(!inLoop(b), core.SSAName(fn)+"|whole-input-encoded|"+sprintf("%d", k), p.Pos(x.Pos()),
+							core.SSAName(fn)+" applies a padded encoding"+ife(!inLoop(b), " once, to the complete data", " inside a loop, to one piece of the data at a time: each piece is padded on its own"))
+					}
+				case *ssa.MakeClosure:
+					if f, ok := x.Fn.(*ssa.Function); ok && isEnc(f) {
+						k++
+						n++
+						c.Check(false, core.SSAName(fn)+"|whole-input-encoded|"+sprintf("%d", k), p.Pos(x.Pos()),
+							core.SSAName(fn)+" hands the EncodeToString method of a padded encoding on as a function value: whoever calls it decides how much of the data it sees at a time")
+					}
+				}
+			}
+		}
+	}
+	if n < 2 {
+		core.Undecidedf("only %d applications of a padded encoding found", n)
+	}
+	c.Stat("padded_encode_calls", n)
+}
+
+// ---------------------------------------------------------------------------
+// blockCommentsEndAtTheFirstCloser: a block comment ends at the first "*/"
+// after it began.  The function that skips one keeps no count of anything it
+// sees inside: with a nesting depth, a "/*" in the comment's text (docs/*.md)
+// makes the comment run on to the end of the file, and the program silently
+// loses everything after it.
+func blockCommentsEndAtTheFirstCloser(c *core.Ctx) {
+	p := c.P
+	lp := p.Pkg("lexer")
+	lexT := core.MustType(lp, "Lexer")
+	n := 0
+	for _, fn := range repoFns(p, "lexer") {
+		if fn.Signature.Recv() == nil || core.NamedOf(fn.Signature.Recv().Type()) != lexT || fn.Signature.Results().Len() != 0 {
+			continue
+		}
+		low := strings.ToLower(fn.Name())
+		if !strings.Contains(low, "comment") || !strings.Contains(low, "multi") {
+			continue
+		}
+		n++
+		counter := ""
+		for _, b := range fn.Blocks {
+			for _, in := range b.Instrs {
+				phi, ok := in.(*ssa.Phi)
+				if !ok {
+					continue
+				}
+				bt, ok := phi.Type().Underlying().(*types.Basic)
+				if !ok || bt.Info()&types.IsInteger == 0 {
+					continue
+				}
+				// a value that is carried round the loop and changed by adding or subtracting
+				for _, b3 := range fn.Blocks {
+					for _, in3 := range b3.Instrs {
+						bo, ok := in3.(*ssa.BinOp)
+						if !ok || (bo.Op != token.ADD && bo.Op != token.SUB) {
+							continue
+						}
+						fromPhi := bo.X == ssa.Value(phi) || bo.Y == ssa.Value(phi) || core.DependsOn(bo, func(w ssa.Value) bool { return w == ssa.Value(phi) })
+						toPhi := core.DependsOn(phi, func(w ssa.Value) bool { return w == ssa.Value(bo) })
+						for _, e := range phi.Edges {
+							if e == ssa.Value(bo) {
+								toPhi = true
+							}
+						}
+						if fromPhi && toPhi {
+							counter = p.Pos(bo.Pos())
+						}
+					}
+				}
+			}
+		}
+		c.Check(counter == "", core.SSAName(fn)+"|no-count-inside-a-comment", p.Pos(fn.Pos()),
+			core.SSAName(fn)+" skips a block comment"+ife(counter == "", " without counting anything it sees inside", " and keeps a count that it changes at "+counter+": where the comment ends then depends on its text, and a comment that mentions \"/*\" swallows the rest of the file"))
+	}
+	if n == 0 {
+		core.Undecidedf("no block-comment skipping method found in package lexer")
+	}
+	c.Stat("block_comment_skippers", n)
+}
+
+// ---------------------------------------------------------------------------
+// diagnosticsStoreTheirTextAsGiven: the constructor of a parser error stores
+// the strings it is given (the quoted source line above all) unchanged.  A
+// line trimmed of its trailing blanks is not the line of the source any more,
+// and columns that lie in the trimmed part point past the quoted text.
+func diagnosticsStoreTheirTextAsGiven(c *core.Ctx) {
+	p := c.P
+	pp := p.Pkg("parser")
+	errT := core.MustType(pp, "BaseParserError")
+	n := 0
+	for _, fn := range repoFns(p, "parser") {
+		var alloc *ssa.Alloc
+		for _, b := range fn.Blocks {
+			for _, in := range b.Instrs {
+				if al, ok := in.(*ssa.Alloc); ok && core.NamedOf(al.Type()) == errT {
+					alloc = al
+				}
+			}
+		}
+		if alloc == nil || alloc.Referrers() == nil {
+			continue
+		}
+		for _, r := range *alloc.Referrers() {
+			fa, ok := r.(*ssa.FieldAddr)
+			if !ok || fa.Referrers() == nil {
+				continue
+			}
+			for _, r2 := range *fa.Referrers() {
+				s, ok := r2.(*ssa.Store)
+				if !ok || s.Addr != ssa.Value(fa) {
+					continue
+				}
+				bt, ok := s.Val.Type().Underlying().(*types.Basic)
+				if !ok || bt.Info()&types.IsString == 0 {
+					continue
+				}
+				n++
+				computed := ""
+				for _, o := range core.Origins(s.Val) {
+					if call, ok := o.(*ssa.Call); ok {
+						if cal := call.Call.StaticCallee(); cal != nil {
+							computed = core.SSAName(cal)
+						} else {
+							computed = "a call"
+						}
+					}
+					if _, ok := o.(*ssa.BinOp); ok {
+						computed = "a concatenation"
+					}
+				}
+				c.Check(computed == "", core.SSAName(fn)+"|"+fieldNameOf(errT, fa.Field)+"|stored-as-given", p.Pos(s.Pos()),
+					core.SSAName(fn)+" stores "+fieldNameOf(errT, fa.Field)+ife(computed == "", " as it was given", " after passing it through "+computed+": the diagnostic no longer carries the text of the source verbatim"))
+			}
+		}
+	}
+	if n < 3 {
+		core.Undecidedf("only %d string fields stored by parser error constructors", n)
+	}
+	c.Stat("diagnostic_string_fields", n)
 }
